@@ -280,6 +280,17 @@ func filter(context *api.Context, collection b6.UntypedCollection, function api.
 	return b6.Collection[any, any]{AnyCollection: &filterCollection{c: collection, f: function, context: context}}, nil
 }
 
+// hashable returns true if v can be used as the key of a map.
+func hashable(v interface{}) (ok bool) {
+	defer func() {
+		if recover() != nil {
+			ok = false
+		}
+	}()
+	_ = map[interface{}]struct{}{v: {}}
+	return true
+}
+
 // Return a collection of the result of summing the values of each item with the same key.
 // Requires values to be integers.
 func sumByKey(_ *api.Context, c b6.Collection[any, int]) (b6.Collection[any, int], error) {
@@ -292,6 +303,9 @@ func sumByKey(_ *api.Context, c b6.Collection[any, int]) (b6.Collection[any, int
 		}
 		if !ok {
 			break
+		}
+		if !hashable(i.Key()) {
+			return b6.Collection[any, int]{}, fmt.Errorf("can't sum by keys of type %T", i.Key())
 		}
 		counts[i.Key()] += i.Value()
 	}
@@ -318,7 +332,9 @@ func countValues(_ *api.Context, collection b6.Collection[any, any]) (b6.Collect
 		if !ok {
 			break
 		}
-		// TODO: return an error if the value can't be used as a map key
+		if !hashable(i.Value()) {
+			return b6.Collection[any, int]{}, fmt.Errorf("can't count values of type %T", i.Value())
+		}
 		counts[i.Value()]++
 	}
 	r := &b6.ArrayCollection[interface{}, int]{
@@ -344,7 +360,9 @@ func countKeys(_ *api.Context, collection b6.Collection[any, any]) (b6.Collectio
 		if !ok {
 			break
 		}
-		// TODO: return an error if the value can't be used as a map key
+		if !hashable(i.Key()) {
+			return b6.Collection[any, int]{}, fmt.Errorf("can't count keys of type %T", i.Key())
+		}
 		counts[i.Key()]++
 	}
 	r := &b6.ArrayCollection[interface{}, int]{
@@ -371,7 +389,9 @@ func countValidKeys(_ *api.Context, collection b6.Collection[any, any]) (b6.Coll
 		if !ok {
 			break
 		}
-		// TODO: return an error if the value can't be used as a map key
+		if !hashable(i.Key()) {
+			return b6.Collection[any, int]{}, fmt.Errorf("can't count keys of type %T", i.Key())
+		}
 		if id, ok := i.Value().(b6.FeatureID); ok {
 			if id.IsValid() {
 				counts[i.Key()]++
